@@ -154,6 +154,10 @@ func threadRun(L *LState) {
 			}
 			if parent := L.Parent; parent != nil {
 				if L.wrapped {
+					// the coroutine is dead and its resumer runs again
+					L.G.CurrentThread = parent
+					L.Parent = nil
+					L.kill()
 					L.Push(lv)
 					parent.Panic(L)
 				} else {
